@@ -40,6 +40,8 @@ def n_cases(tier):
 def gen_matrix(rng, kind):
     if kind == "int":
         m = [rng.choice([0, 0, 1, 2, 3, 5, 10, 100, rng.randint(0, 1000)]) for _ in range(4)]
+        if rng.random() < 0.2:  # large populations (products of counts beyond 2**63)
+            m = [rng.choice([0, 1, 10**6, 3 * 10**6, 10**7, 2 * 10**9, rng.randint(0, 10**10)]) for _ in range(4)]
     elif kind == "dyadic":
         m = [rng.choice([0, 0.5, 1.5, 2.25, 8.0, rng.randint(0, 64) / 8.0]) for _ in range(4)]
     else:
